@@ -115,11 +115,76 @@ func bytesPool(rng *rand.Rand, maxLen int, extra int, text bool) [][]byte {
 		}
 		cand = append(cand, s)
 	}
+	// multi-byte UTF-8 (2-, 3-, 4-byte runes), truncated runes and invalid bytes: the column length is a
+	// BYTE length, these fill the slot with fewer characters than bytes
+	for _, n := range []int{maxLen, maxLen - 1, maxLen - 2} {
+		if n > 0 {
+			cand = append(cand, utf8Fill(rng, n, true), utf8Fill(rng, n, false))
+		}
+	}
 	var out [][]byte
 	for _, s := range cand {
 		if len(s) <= maxLen {
 			out = append(out, s)
 		}
+	}
+	return out
+}
+
+var utf8Runes = []string{"a", "b", "é", "ß", "€", "日", "𝄞", "😀"}
+var utf8Broken = [][]byte{{0xc3}, {0xe2, 0x82}, {0xf0, 0x9f, 0x98}, {0xff}, {0x80}, {0xc0, 0xaf}}
+
+// a string of exactly n bytes made of runes of mixed widths (wide ones first); when the runes do not fit
+// exactly the tail is ASCII (valid) or a truncated / invalid sequence
+func utf8Fill(rng *rand.Rand, n int, valid bool) []byte {
+	var s []byte
+	for len(s) < n {
+		r := utf8Runes[rng.Intn(len(utf8Runes))]
+		if !valid && rng.Intn(4) == 0 {
+			r = string(utf8Broken[rng.Intn(len(utf8Broken))])
+		}
+		if len(s)+len(r) > n {
+			if valid {
+				r = "a"
+			} else {
+				r = r[:n-len(s)]
+			}
+		}
+		s = append(s, r...)
+	}
+	return s
+}
+
+// strings around the column length n in BYTES whose CHARACTER count stays at or below n:
+// byte lengths n+1 .. 2n+2 (rejected by a byte-length check, accepted by a character count)
+func utf8OverLength(rng *rand.Rand, n int) [][]byte {
+	var out [][]byte
+	add := func(s string) {
+		if len(s) > n && len([]rune(s)) <= n {
+			out = append(out, []byte(s))
+		}
+	}
+	for _, w := range []string{"é", "€", "𝄞"} {
+		for k := 1; k <= n; k++ { // k wide runes, the rest ASCII, exactly n characters and fewer
+			s := ""
+			for i := 0; i < k; i++ {
+				s += w
+			}
+			for i := k; i < n; i++ {
+				s += string(rune('a' + rng.Intn(3)))
+			}
+			add(s)
+			if k < n {
+				add(s[:len(s)-1]) // one character fewer
+			}
+			if k > 3 {
+				break
+			}
+		}
+	}
+	if n >= 4 { // same wide prefix, different ASCII tails beyond the slot: distinct values
+		add("ééab")
+		add("éécd")
 	}
 	return out
 }
@@ -408,6 +473,40 @@ func (g *gen) genSQLErrors(scale int) {
 				g.caseKey(v, ty, ml, "too-long")
 				g.caseVal(v, ty, ml, false, "too-long")
 				g.caseVal(v, ty, 0, false, "unlimited")
+			}
+		}
+	}
+	// VARCHAR[n]/BLOB[n]: n is a byte length. Multi-byte strings with at most n characters but more than n bytes
+	for _, ty := range []int{tStr, tBlob} {
+		for _, ml := range []int{1, 2, 3, 4, 5, 8, 16} {
+			mk := func(b []byte) sval {
+				if ty == tStr {
+					return vStr(b)
+				}
+				return vBlob(b)
+			}
+			over := utf8OverLength(rng, ml)
+			for i, b := range over {
+				v := mk(b)
+				if key := g.caseKey(v, ty, ml, "utf8-over-length"); key != nil {
+					g.caseKeyDec(key, ty, ml, "utf8-over-length", &v) // (only when the encoder accepted it)
+				}
+				if enc := g.caseVal(v, ty, ml, false, "utf8-over-length"); enc != nil {
+					g.caseValDec(enc, ty, false, "utf8-over-length", &v)
+				}
+				g.casePair(v, mk(over[(i+1)%len(over)]), ty, ml, "utf8-over-length")
+			}
+			// exactly n and n-1 bytes of multi-byte text: accepted, round trip, order
+			var fit []sval
+			for k := 0; k < 4; k++ {
+				fit = append(fit, mk(utf8Fill(rng, ml, k%2 == 0)), mk(utf8Fill(rng, ml-1, k%2 == 1)))
+			}
+			for i, v := range fit {
+				v := v
+				if key := g.caseKey(v, ty, ml, "utf8-fit"); key != nil {
+					g.caseKeyDec(key, ty, ml, "utf8-fit", &v)
+				}
+				g.casePair(v, fit[(i+3)%len(fit)], ty, ml, "utf8-fit")
 			}
 		}
 	}
